@@ -192,8 +192,6 @@ def run_sql(ck):
         cls = (c.get("class") or [""])[0]
         if cls == "unwrap-without-parser" and c.get("err") == "process" and "labels col not inited" in c.get("err_text", "") and "unwrap-needs-parser" in known:
             ck.report_known("unwrap-needs-parser", "%s => Process error '%s'" % (c["query"], c["err_text"]))
-        if cls == "having-without-group-by" and c.get("sql") and re.search(r"array JOIN par_b\.slice as arr_b\s+HAVING", c["sql"][0]) and "comparison-on-topk" in known:
-            ck.report_known("comparison-on-topk", "%s => ... FROM par_b array JOIN par_b.slice as arr_b HAVING ((value) > (1.000000)) (no aggregation in that select)" % c["query"])
         if cls == "label-format-ignored" and c.get("sql") and "Map(String, String)" not in c["sql"][0] and "mapUpdate" not in c["sql"][0] and "label-format-ignored" in known:
             ck.report_known("label-format-ignored", "%s => the SQL neither renames nor adds a label (no mapUpdate(labels, ...)), it groups by mapFilter((k,v) -> k IN ('x'), labels) of the stream labels" % c["query"])
     # ---- spec oracle 1: the roll-up table only for representable queries
@@ -219,6 +217,22 @@ def run_sql(ck):
                           worst["n_label_filters"], len(set(re.findall(r"subsel_\d+", worst["sql"][0]))))),
                       "sql": worst["sql"][0][:3000],
                       "failing_input": "two streams matching the selector of which the label filter keeps one, one line each in one window: the reference reports one series, the SQL two",
+                      "replay": "harness logqlsql --cases <file with this case>"})
+    # ---- spec oracle 1c: HAVING only in a select that aggregates (ClickHouse rejects it otherwise): a comparison after
+    # topk/bottomk must filter the rows of TopKPlanner's select, i.e. mean value <op> x, in a valid statement
+    def having_without_group(sql):
+        for piece in sql.split(" SELECT ")[1:]:
+            k = piece.find(" HAVING ")
+            if k >= 0 and " GROUP BY " not in piece[:k]:
+                return True
+        return False
+    hv_bad = [c for c in allc if c.get("sql") and having_without_group(c["sql"][0])]
+    ck.obligation("spec oracle: HAVING appears only in selects with GROUP BY", not hv_bad, "; ".join(c["query"] for c in hv_bad[:3]))
+    if hv_bad:
+        worst = min(hv_bad, key=lambda c: len(c["query"]))
+        ck.violation({"property": "C08", "part": "logql_metric_correct", "kind": "the comparison is planned as HAVING on a select that performs no aggregation: ClickHouse rejects the statement, the query has no result",
+                      "case": witness_rows(worst, "a select with HAVING and without GROUP BY"), "sql": worst["sql"][0][:3000],
+                      "failing_input": "any database: the statement is not valid ClickHouse SQL (documentation of the HAVING clause)",
                       "replay": "harness logqlsql --cases <file with this case>"})
     # ---- spec oracle 2: aggregate fragments read back from the implementation's SQL
     lra, agg = observations(allc)
